@@ -62,6 +62,11 @@ def cases(ctx):
             sh = [rng.randint(1, 4), rng.randint(1, 4), 3]
             dt = rng.choice(["uint8", "float64", "float32", "int32"])
             vals = [rng.choice([0, 1, 10, 11, 128, 254, 255, rng.randint(0, 255)]) for _ in range(gen.size(sh))]
+            if rng.random() < 0.25:
+                # near-black images: on the documented 0..255 scale the levels 0 and 1 are just very dark, whatever the dtype
+                vals = [rng.choice([0, 1, 1]) for _ in vals]
+                if not any(vals):
+                    vals[0] = 1
             yield {"kind": "conv", "shape": sh, "dtype": dt, "vals": vals, "layout": rng.choice(LAYOUTS),
                    "fn": rng.choice(["rgb2xyz", "rgb2lab", "rgb2grey", "rgb2sepia", "roundtrip"])}
         else:
